@@ -896,6 +896,67 @@ func TestVxC04Responses(t *testing.T) {
 	})
 }
 
+// vxCmpDestRow compares scan destinations with row rowIdx of r.
+func vxCmpDestRow(r *cqlspec.Response, rowIdx int, dests []vxDest) error {
+	for _, d := range dests {
+		if !d.ptr.IsValid() {
+			continue
+		}
+		cell := vxCellFor(d, r.Rows[rowIdx])
+		if d.elem < 0 {
+			cell = vxEffCell(r.Meta.Columns[d.col].Type, cell, r.Version)
+		}
+		if err := vxCompare(d.ty, cell, d.ptr.Elem(), fmt.Sprintf("row %d col %d", rowIdx, d.col)); err != nil {
+			return err
+		}
+	}
+	return nil
+}
+// MapScan/SliceMap copy slices (rowMap), which turns the nil slice of a null collection/blob into an
+// empty one; len()==0 either way, and Cassandra itself does not distinguish empty from null collections
+func vxNullAsEmpty(cell cqlspec.Value, v interface{}) bool {
+	rv := reflect.ValueOf(v)
+	return cell.Null && rv.IsValid() && rv.Kind() == reflect.Slice && rv.Len() == 0
+}
+// vxCmpMapRow compares a MapScan / SliceMap row with row rowIdx of r.
+func vxCmpMapRow(r *cqlspec.Response, rowIdx int, m map[string]interface{}) error {
+	want := 0
+	for ci, c := range r.Meta.Columns {
+		if c.Type.Kind == cqlspec.Tuple {
+			for j, e := range c.Type.Elems {
+				want++
+				v, ok := m[TupleColumnName(c.Name, j)]
+				if !ok {
+					return fmt.Errorf("row %d: key %q missing", rowIdx, TupleColumnName(c.Name, j))
+				}
+				if vxNullAsEmpty(vxCellFor(vxDest{col: ci, elem: j}, r.Rows[rowIdx]), v) {
+					continue
+				}
+				if err := vxCompare(e, vxCellFor(vxDest{col: ci, elem: j}, r.Rows[rowIdx]), reflect.ValueOf(&v).Elem(), fmt.Sprintf("row %d %s[%d]", rowIdx, c.Name, j)); err != nil {
+					return err
+				}
+			}
+			continue
+		}
+		want++
+		v, ok := m[c.Name]
+		if !ok {
+			return fmt.Errorf("row %d: key %q missing", rowIdx, c.Name)
+		}
+		if vxNullAsEmpty(r.Rows[rowIdx][ci], v) {
+			continue
+		}
+		et, _ := vxEffType(c.Type)
+		if err := vxCompare(et, vxEffCell(c.Type, r.Rows[rowIdx][ci], r.Version), reflect.ValueOf(&v).Elem(), fmt.Sprintf("row %d %s", rowIdx, c.Name)); err != nil {
+			return err
+		}
+	}
+	if len(m) != want {
+		return fmt.Errorf("row %d: map has %d keys, want %d", rowIdx, len(m), want)
+	}
+	return nil
+}
+
 // vxConsumeRows reads all rows through the chosen API and compares every cell. Public API only.
 func vxConsumeRows(iter *Iter, r *cqlspec.Response, consumer int, k *vstats.Case) error {
 	if got := hex.EncodeToString(iter.PageState()); r.Meta.HasMore && got != r.Meta.StateHex {
@@ -921,64 +982,8 @@ func vxConsumeRows(iter *Iter, r *cqlspec.Response, consumer int, k *vstats.Case
 	if (consumer == 2 || consumer == 3) && !uniqueNames {
 		consumer = 0
 	}
-	cmpDest := func(rowIdx int, dests []vxDest) error {
-		for _, d := range dests {
-			if !d.ptr.IsValid() {
-				continue
-			}
-			cell := vxCellFor(d, r.Rows[rowIdx])
-			if d.elem < 0 {
-				cell = vxEffCell(r.Meta.Columns[d.col].Type, cell, r.Version)
-			}
-			if err := vxCompare(d.ty, cell, d.ptr.Elem(), fmt.Sprintf("row %d col %d", rowIdx, d.col)); err != nil {
-				return err
-			}
-		}
-		return nil
-	}
-	// MapScan/SliceMap copy slices (rowMap), which turns the nil slice of a null collection/blob into an
-	// empty one; len()==0 either way, and Cassandra itself does not distinguish empty from null collections
-	nullAsEmpty := func(cell cqlspec.Value, v interface{}) bool {
-		rv := reflect.ValueOf(v)
-		return cell.Null && rv.IsValid() && rv.Kind() == reflect.Slice && rv.Len() == 0
-	}
-	cmpMap := func(rowIdx int, m map[string]interface{}) error {
-		want := 0
-		for ci, c := range r.Meta.Columns {
-			if c.Type.Kind == cqlspec.Tuple {
-				for j, e := range c.Type.Elems {
-					want++
-					v, ok := m[TupleColumnName(c.Name, j)]
-					if !ok {
-						return fmt.Errorf("row %d: key %q missing", rowIdx, TupleColumnName(c.Name, j))
-					}
-					if nullAsEmpty(vxCellFor(vxDest{col: ci, elem: j}, r.Rows[rowIdx]), v) {
-						continue
-					}
-					if err := vxCompare(e, vxCellFor(vxDest{col: ci, elem: j}, r.Rows[rowIdx]), reflect.ValueOf(&v).Elem(), fmt.Sprintf("row %d %s[%d]", rowIdx, c.Name, j)); err != nil {
-						return err
-					}
-				}
-				continue
-			}
-			want++
-			v, ok := m[c.Name]
-			if !ok {
-				return fmt.Errorf("row %d: key %q missing", rowIdx, c.Name)
-			}
-			if nullAsEmpty(r.Rows[rowIdx][ci], v) {
-				continue
-			}
-			et, _ := vxEffType(c.Type)
-			if err := vxCompare(et, vxEffCell(c.Type, r.Rows[rowIdx][ci], r.Version), reflect.ValueOf(&v).Elem(), fmt.Sprintf("row %d %s", rowIdx, c.Name)); err != nil {
-				return err
-			}
-		}
-		if len(m) != want {
-			return fmt.Errorf("row %d: map has %d keys, want %d", rowIdx, len(m), want)
-		}
-		return nil
-	}
+	cmpDest := func(rowIdx int, dests []vxDest) error { return vxCmpDestRow(r, rowIdx, dests) }
+	cmpMap := func(rowIdx int, m map[string]interface{}) error { return vxCmpMapRow(r, rowIdx, m) }
 	if vxHasOpaqueColumn(r.Meta) {
 		// the driver has no Go type for an unknown custom class: MapScan / SliceMap cannot build a row;
 		// Scan and Scanner skip the column when its destination is nil
